@@ -254,7 +254,7 @@ def c20_run(ctx):
         imports.append(b)
         metas.append(probes)
     res_b = S.run_many(imports)
-    n_cmp, worst = 0, None
+    n_cmp, worst, n_outside = 0, None, 0
     distinct = set()
     for i, (a_lines, b_lines, ra, rb, probes) in enumerate(zip(srcs, imports, res_a, res_b, metas)):
         ca, cb = S.compare(ra, ALL_OPS), S.compare(rb, ALL_OPS)
@@ -263,6 +263,11 @@ def c20_run(ctx):
                 worst = ("corr", f"{which} store of case {i}", lines, (c["corr"] or [c["incomplete"]])[0])
             if c["spec"] and (worst is None or worst[0] == "corr"):
                 worst = ("spec", f"{which} store of case {i}", lines, c["spec"][0])
+        if ca["hyp_broken_at"] is not None:
+            # the source history left the theorem's hypotheses (e.g. an import re-used an id under another topic:
+            # known-finding class import-id-collision); "observably equal" is not claimed for it
+            n_outside += 1
+            continue
         implb = S.parse_trace(rb["trace"])
         pb = [x for x in implb if x[0][0] in ("readsync", "read", "get", "head", "append")]
         pa = [x for x in probes if x[0][0] in ("readsync", "read", "get", "head", "append")]
@@ -281,7 +286,7 @@ def c20_run(ctx):
              "the source's export in a random permutation with duplications (registrations sometimes last); every probe "
              "(reads, gets, heads, context usability) is compared between the two real stores and against model and spec; "
              "non-trivial = the imported store answered every probe of the source",
-        traces_validated_against_impl=2 * n, probe_observations_compared=n_cmp,
+        traces_validated_against_impl=2 * n, probe_observations_compared=n_cmp, sources_outside_hypotheses=n_outside,
         samples=[dict(source=srcs[0][:8], imported=imports[0][:8])]))
     if worst:
         kind, name, lines, d = worst
